@@ -336,25 +336,25 @@ func (c *loopCloud) UnAssignIpv6AddressesV2(ctx context.Context, eniID string, i
 type loopWorld struct {
 	noFaults, wide bool
 	faults         int
-	c        *Ctx
-	r        *Rng
-	focus    string
-	cl       client.WithWatch
-	cloud    *loopCloud
-	rec      reconcile.Reconciler
-	en6      bool
-	cap4     int
-	quota    int
-	minP     int
-	maxP     int
-	pods     map[string]string // pod name -> uid (existing)
-	gone     map[string]string // uid -> name of pods deleted, teardown not yet reported
-	reported map[string]bool   // uid -> teardown reported
-	created  []string
-	usedIP   map[string]bool
-	trace    []string
-	viols    [][2]string
-	snap     *networkv1beta1.Node // record before the running reconcile
+	c              *Ctx
+	r              *Rng
+	focus          string
+	cl             client.WithWatch
+	cloud          *loopCloud
+	rec            reconcile.Reconciler
+	en6            bool
+	cap4           int
+	quota          int
+	minP           int
+	maxP           int
+	pods           map[string]string // pod name -> uid (existing)
+	gone           map[string]string // uid -> name of pods deleted, teardown not yet reported
+	reported       map[string]bool   // uid -> teardown reported
+	created        []string
+	usedIP         map[string]bool
+	trace          []string
+	viols          [][2]string
+	snap           *networkv1beta1.Node // record before the running reconcile
 }
 
 func (w *loopWorld) viol(key, what string) {
